@@ -8,6 +8,7 @@ import impl as implmod
 import props.c02 as c02
 
 PROP = "C07"
+CONSTS = ['ops', 'ctl']          # constant tables of the models this property depends on
 RULE = ("programs of C02 in five-stage mode with hazard detection, the cycle in which each instruction leaves WB and the total "
         "cycle count compared with an independent reference of the documented schedule; straight-line programs of n mutually "
         "independent instructions (n = 0..40) for the n+4 clause; cache configurations with penalties 0-5 for the per-step "
